@@ -21,67 +21,76 @@ type guardSpec struct {
 	name, file, fn, call string
 	atoms                map[string]string
 	params               []string
+	// enterLoops: a call inside a loop body is located relative to one iteration of that loop (continue / break end it)
+	enterLoops bool
 }
 
 var guardSpecs = []guardSpec{
 	{"jobCreateGuard", "pkg/controller.v1beta1/trial/trial_controller.go", "reconcileJob", "r.Create(context.TODO(), desiredJob)",
 		map[string]string{"err != nil": "getFailed", "apierrors.IsNotFound(err)": "notFound", "instance.IsCompleted()": "completed", "instance.Spec.RetainRun": "retain", "instance.IsEarlyStopped()": "earlyStopped"},
-		[]string{"getFailed", "notFound", "completed", "retain", "earlyStopped"}},
+		[]string{"getFailed", "notFound", "completed", "retain", "earlyStopped"}, false},
 	{"jobDeleteGuard", "pkg/controller.v1beta1/trial/trial_controller.go", "reconcileJob", "r.Delete(context.TODO(), desiredJob",
 		map[string]string{"err != nil": "getFailed", "apierrors.IsNotFound(err)": "notFound", "instance.IsCompleted()": "completed", "instance.Spec.RetainRun": "retain", "instance.IsEarlyStopped()": "earlyStopped"},
-		[]string{"getFailed", "notFound", "completed", "retain", "earlyStopped"}},
+		[]string{"getFailed", "notFound", "completed", "retain", "earlyStopped"}, false},
 	{"sugCleanupGuard", "pkg/controller.v1beta1/experiment/experiment_controller_util.go", "cleanupSuggestionResources", "original.DeepCopy()",
 		map[string]string{"err != nil": "getFailed", "errors.IsNotFound(err)": "notFound", "original.IsCompleted()": "sugCompleted", "original.IsRestarting()": "sugRestarting", "original.IsSucceeded()": "sugSucceeded", "instance.IsRestarting()": "expRestarting",
 			"instance.Spec.ResumePolicy == experimentsv1beta1.NeverResume": "never", "instance.Spec.ResumePolicy == experimentsv1beta1.FromVolume": "fromVolume"},
-		[]string{"getFailed", "notFound", "sugCompleted", "sugRestarting", "sugSucceeded", "expRestarting", "never", "fromVolume"}},
-	{"markSucceededGuard", "pkg/controller.v1beta1/trial/trial_controller_util.go", "UpdateTrialStatusCondition", "instance.MarkTrialStatusSucceeded(", verdictAtoms, verdictParams},
-	{"markUnavailableGuard", "pkg/controller.v1beta1/trial/trial_controller_util.go", "UpdateTrialStatusCondition", "instance.MarkTrialStatusMetricsUnavailable(", verdictAtoms, verdictParams},
-	{"markFailedGuard", "pkg/controller.v1beta1/trial/trial_controller_util.go", "UpdateTrialStatusCondition", "instance.MarkTrialStatusFailed(", verdictAtoms, verdictParams},
-	{"markRunningGuard", "pkg/controller.v1beta1/trial/trial_controller_util.go", "UpdateTrialStatusCondition", "instance.MarkTrialStatusRunning(", verdictAtoms, verdictParams},
-	{"markRestartingGuard", "pkg/controller.v1beta1/experiment/experiment_controller.go", "Reconcile", "instance.MarkExperimentStatusRestarting(", expAtoms, expParams},
-	{"callCleanupGuard", "pkg/controller.v1beta1/experiment/experiment_controller.go", "Reconcile", "r.cleanupSuggestionResources(instance)", expAtoms, expParams},
-	{"callRestartGuard", "pkg/controller.v1beta1/experiment/experiment_controller.go", "Reconcile", "r.restartSuggestion(instance)", expAtoms, expParams},
-	{"callReconcileExperimentGuard", "pkg/controller.v1beta1/experiment/experiment_controller.go", "Reconcile", "r.ReconcileExperiment(instance)", expAtoms, expParams},
-	{"markCreatedGuard", "pkg/controller.v1beta1/experiment/experiment_controller.go", "Reconcile", "instance.MarkExperimentStatusCreated(", expAtoms, expParams},
-	{"callUpdateStatusGuard", "pkg/controller.v1beta1/experiment/experiment_controller.go", "ReconcileExperiment", "util.UpdateExperimentStatus(", recAtoms, recParams},
-	{"callReconcileTrialsGuard", "pkg/controller.v1beta1/experiment/experiment_controller.go", "ReconcileExperiment", "r.ReconcileTrials(instance, trials.Items)", recAtoms, recParams},
-	{"callDeleteTrialsGuard", "pkg/controller.v1beta1/experiment/experiment_controller.go", "ReconcileTrials", "r.deleteTrials(", recAtoms, recParams},
-	{"callCreateTrialsGuard", "pkg/controller.v1beta1/experiment/experiment_controller.go", "ReconcileTrials", "r.createTrials(", recAtoms, recParams},
-	{"callObservationGuard", "pkg/controller.v1beta1/trial/trial_controller.go", "reconcileTrial", "r.UpdateTrialStatusObservation(instance)", rtAtoms, rtParams},
-	{"requeueNoMetricsGuard", "pkg/controller.v1beta1/trial/trial_controller.go", "reconcileTrial", "ident:errMetricsNotReported", rtAtoms, rtParams},
-	{"callUpdateConditionGuard", "pkg/controller.v1beta1/trial/trial_controller.go", "reconcileTrial", "r.UpdateTrialStatusCondition(", rtAtoms, rtParams},
-	{"callGetSuggestionsGuard", "pkg/controller.v1beta1/suggestion/suggestionclient/suggestionclient.go", "SyncAssignments", "rpcClientSuggestion.GetSuggestions(", syncAtoms, syncParams},
-	{"callGetRulesGuard", "pkg/controller.v1beta1/suggestion/suggestionclient/suggestionclient.go", "SyncAssignments", "rpcClientEarlyStopping.GetEarlyStoppingRules(", syncAtoms, syncParams},
-	{"appendAssignmentsGuard", "pkg/controller.v1beta1/suggestion/suggestionclient/suggestionclient.go", "SyncAssignments", "append(instance.Status.Suggestions, trialAssignments...)", syncAtoms, syncParams},
-	{"callReconcileVolumeGuard", "pkg/controller.v1beta1/suggestion/suggestion_controller.go", "ReconcileSuggestion", "r.reconcileVolume(", rsAtoms, rsParams},
-	{"callReconcileRBACGuard", "pkg/controller.v1beta1/suggestion/suggestion_controller.go", "ReconcileSuggestion", "r.reconcileRBAC(", rsAtoms, rsParams},
-	{"markDeployNotReadyGuard", "pkg/controller.v1beta1/suggestion/suggestion_controller.go", "ReconcileSuggestion", "instance.MarkSuggestionStatusDeploymentReady(corev1.ConditionFalse", rsAtoms, rsParams},
-	{"callValidateGuard", "pkg/controller.v1beta1/suggestion/suggestion_controller.go", "ReconcileSuggestion", "r.ValidateAlgorithmSettings(", rsAtoms, rsParams},
-	{"callValidateESGuard", "pkg/controller.v1beta1/suggestion/suggestion_controller.go", "ReconcileSuggestion", "r.ValidateEarlyStoppingSettings(", rsAtoms, rsParams},
-	{"markSugRunningGuard", "pkg/controller.v1beta1/suggestion/suggestion_controller.go", "ReconcileSuggestion", "instance.MarkSuggestionStatusRunning(corev1.ConditionTrue", rsAtoms, rsParams},
-	{"callSyncGuard", "pkg/controller.v1beta1/suggestion/suggestion_controller.go", "ReconcileSuggestion", "r.SyncAssignments(", rsAtoms, rsParams},
-	{"markExpFailedBySugGuard", "pkg/controller.v1beta1/experiment/experiment_controller.go", "ReconcileSuggestions", "instance.MarkExperimentStatusFailed(", rsugAtoms, rsugParams},
-	{"callUpdateSuggestionGuard", "pkg/controller.v1beta1/experiment/experiment_controller.go", "ReconcileSuggestions", "r.UpdateSuggestion(suggestion)", rsugAtoms, rsugParams},
-	{"updNotRestartableGuard", "pkg/webhook/v1beta1/experiment/validator/validator.go", "ValidateExperiment", `Child("resumePolicy"), instance.Spec.ResumePolicy, msg)`, updAtoms, updParams},
-	{"updMaxNotAboveGuard", "pkg/webhook/v1beta1/experiment/validator/validator.go", "ValidateExperiment", `"must be greater than status.trials count"`, updAtoms, updParams},
-	{"updForbiddenGuard", "pkg/webhook/v1beta1/experiment/validator/validator.go", "ValidateExperiment", "field.Forbidden(specPath", updAtoms, updParams},
-	{"addFinalizerGuard", "pkg/controller.v1beta1/trial/trial_controller_util.go", "needUpdateFinalizers", "append(pendingFinalizers, cleanMetricsFinalizer)", finAtoms, finParams},
-	{"removeFinalizerGuard", "pkg/controller.v1beta1/trial/trial_controller_util.go", "needUpdateFinalizers", "stmt:finalizers := []string{}", finAtoms, finParams},
-	{"dbCleanupGuard", "pkg/controller.v1beta1/trial/trial_controller_util.go", "updateFinalizers", "r.DeleteTrialObservationLog(instance)", finAtoms, finParams},
-	{"finalizerWriteGuard", "pkg/controller.v1beta1/trial/trial_controller_util.go", "updateFinalizers", "r.Update(context.TODO(), instance)", finAtoms, finParams},
-	{"callUpdateFinalizersGuard", "pkg/controller.v1beta1/trial/trial_controller.go", "Reconcile", "r.updateFinalizers(instance, finalizers)", trAtoms, trParams},
-	{"markTrialCreatedGuard", "pkg/controller.v1beta1/trial/trial_controller.go", "Reconcile", "instance.MarkTrialStatusCreated(", trAtoms, trParams},
-	{"callReconcileTrialGuard", "pkg/controller.v1beta1/trial/trial_controller.go", "Reconcile", "r.reconcileTrial(instance)", trAtoms, trParams},
-	{"callDeleteDeploymentGuard", "pkg/controller.v1beta1/suggestion/suggestion_controller.go", "Reconcile", "r.deleteDeployment(", srAtoms, srParams},
-	{"callDeleteServiceGuard", "pkg/controller.v1beta1/suggestion/suggestion_controller.go", "Reconcile", "r.deleteService(", srAtoms, srParams},
-	{"markSugCreatedGuard", "pkg/controller.v1beta1/suggestion/suggestion_controller.go", "Reconcile", "instance.MarkSuggestionStatusCreated(", srAtoms, srParams},
-	{"callReconcileSuggestionGuard", "pkg/controller.v1beta1/suggestion/suggestion_controller.go", "Reconcile", "r.ReconcileSuggestion(instance)", srAtoms, srParams},
-	{"expAddFinalizerGuard", "pkg/controller.v1beta1/experiment/experiment_controller_util.go", "needUpdateFinalizers", "append(pendingFinalizers, updatePrometheusMetrics)", efinAtoms, efinParams},
-	{"expRemoveFinalizerGuard", "pkg/controller.v1beta1/experiment/experiment_controller_util.go", "needUpdateFinalizers", "stmt:finalizers := []string{}", efinAtoms, efinParams},
-	{"expCallUpdateFinalizersGuard", "pkg/controller.v1beta1/experiment/experiment_controller.go", "Reconcile", "r.updateFinalizers(instance, finalizers)", expAtoms, expParams},
+		[]string{"getFailed", "notFound", "sugCompleted", "sugRestarting", "sugSucceeded", "expRestarting", "never", "fromVolume"}, false},
+	{"markSucceededGuard", "pkg/controller.v1beta1/trial/trial_controller_util.go", "UpdateTrialStatusCondition", "instance.MarkTrialStatusSucceeded(", verdictAtoms, verdictParams, false},
+	{"markUnavailableGuard", "pkg/controller.v1beta1/trial/trial_controller_util.go", "UpdateTrialStatusCondition", "instance.MarkTrialStatusMetricsUnavailable(", verdictAtoms, verdictParams, false},
+	{"markFailedGuard", "pkg/controller.v1beta1/trial/trial_controller_util.go", "UpdateTrialStatusCondition", "instance.MarkTrialStatusFailed(", verdictAtoms, verdictParams, false},
+	{"markRunningGuard", "pkg/controller.v1beta1/trial/trial_controller_util.go", "UpdateTrialStatusCondition", "instance.MarkTrialStatusRunning(", verdictAtoms, verdictParams, false},
+	{"markRestartingGuard", "pkg/controller.v1beta1/experiment/experiment_controller.go", "Reconcile", "instance.MarkExperimentStatusRestarting(", expAtoms, expParams, false},
+	{"callCleanupGuard", "pkg/controller.v1beta1/experiment/experiment_controller.go", "Reconcile", "r.cleanupSuggestionResources(instance)", expAtoms, expParams, false},
+	{"callRestartGuard", "pkg/controller.v1beta1/experiment/experiment_controller.go", "Reconcile", "r.restartSuggestion(instance)", expAtoms, expParams, false},
+	{"callReconcileExperimentGuard", "pkg/controller.v1beta1/experiment/experiment_controller.go", "Reconcile", "r.ReconcileExperiment(instance)", expAtoms, expParams, false},
+	{"markCreatedGuard", "pkg/controller.v1beta1/experiment/experiment_controller.go", "Reconcile", "instance.MarkExperimentStatusCreated(", expAtoms, expParams, false},
+	{"callUpdateStatusGuard", "pkg/controller.v1beta1/experiment/experiment_controller.go", "ReconcileExperiment", "util.UpdateExperimentStatus(", recAtoms, recParams, false},
+	{"callReconcileTrialsGuard", "pkg/controller.v1beta1/experiment/experiment_controller.go", "ReconcileExperiment", "r.ReconcileTrials(instance, trials.Items)", recAtoms, recParams, false},
+	{"callDeleteTrialsGuard", "pkg/controller.v1beta1/experiment/experiment_controller.go", "ReconcileTrials", "r.deleteTrials(", recAtoms, recParams, false},
+	{"callCreateTrialsGuard", "pkg/controller.v1beta1/experiment/experiment_controller.go", "ReconcileTrials", "r.createTrials(", recAtoms, recParams, false},
+	{"callObservationGuard", "pkg/controller.v1beta1/trial/trial_controller.go", "reconcileTrial", "r.UpdateTrialStatusObservation(instance)", rtAtoms, rtParams, false},
+	{"requeueNoMetricsGuard", "pkg/controller.v1beta1/trial/trial_controller.go", "reconcileTrial", "ident:errMetricsNotReported", rtAtoms, rtParams, false},
+	{"callUpdateConditionGuard", "pkg/controller.v1beta1/trial/trial_controller.go", "reconcileTrial", "r.UpdateTrialStatusCondition(", rtAtoms, rtParams, false},
+	{"callGetSuggestionsGuard", "pkg/controller.v1beta1/suggestion/suggestionclient/suggestionclient.go", "SyncAssignments", "rpcClientSuggestion.GetSuggestions(", syncAtoms, syncParams, false},
+	{"callGetRulesGuard", "pkg/controller.v1beta1/suggestion/suggestionclient/suggestionclient.go", "SyncAssignments", "rpcClientEarlyStopping.GetEarlyStoppingRules(", syncAtoms, syncParams, false},
+	{"appendAssignmentsGuard", "pkg/controller.v1beta1/suggestion/suggestionclient/suggestionclient.go", "SyncAssignments", "append(instance.Status.Suggestions, trialAssignments...)", syncAtoms, syncParams, false},
+	{"callReconcileVolumeGuard", "pkg/controller.v1beta1/suggestion/suggestion_controller.go", "ReconcileSuggestion", "r.reconcileVolume(", rsAtoms, rsParams, false},
+	{"callReconcileRBACGuard", "pkg/controller.v1beta1/suggestion/suggestion_controller.go", "ReconcileSuggestion", "r.reconcileRBAC(", rsAtoms, rsParams, false},
+	{"markDeployNotReadyGuard", "pkg/controller.v1beta1/suggestion/suggestion_controller.go", "ReconcileSuggestion", "instance.MarkSuggestionStatusDeploymentReady(corev1.ConditionFalse", rsAtoms, rsParams, false},
+	{"callValidateGuard", "pkg/controller.v1beta1/suggestion/suggestion_controller.go", "ReconcileSuggestion", "r.ValidateAlgorithmSettings(", rsAtoms, rsParams, false},
+	{"callValidateESGuard", "pkg/controller.v1beta1/suggestion/suggestion_controller.go", "ReconcileSuggestion", "r.ValidateEarlyStoppingSettings(", rsAtoms, rsParams, false},
+	{"markSugRunningGuard", "pkg/controller.v1beta1/suggestion/suggestion_controller.go", "ReconcileSuggestion", "instance.MarkSuggestionStatusRunning(corev1.ConditionTrue", rsAtoms, rsParams, false},
+	{"callSyncGuard", "pkg/controller.v1beta1/suggestion/suggestion_controller.go", "ReconcileSuggestion", "r.SyncAssignments(", rsAtoms, rsParams, false},
+	{"markExpFailedBySugGuard", "pkg/controller.v1beta1/experiment/experiment_controller.go", "ReconcileSuggestions", "instance.MarkExperimentStatusFailed(", rsugAtoms, rsugParams, false},
+	{"callUpdateSuggestionGuard", "pkg/controller.v1beta1/experiment/experiment_controller.go", "ReconcileSuggestions", "r.UpdateSuggestion(suggestion)", rsugAtoms, rsugParams, false},
+	{"updNotRestartableGuard", "pkg/webhook/v1beta1/experiment/validator/validator.go", "ValidateExperiment", `Child("resumePolicy"), instance.Spec.ResumePolicy, msg)`, updAtoms, updParams, false},
+	{"updMaxNotAboveGuard", "pkg/webhook/v1beta1/experiment/validator/validator.go", "ValidateExperiment", `"must be greater than status.trials count"`, updAtoms, updParams, false},
+	{"updForbiddenGuard", "pkg/webhook/v1beta1/experiment/validator/validator.go", "ValidateExperiment", "field.Forbidden(specPath", updAtoms, updParams, false},
+	{"addFinalizerGuard", "pkg/controller.v1beta1/trial/trial_controller_util.go", "needUpdateFinalizers", "append(pendingFinalizers, cleanMetricsFinalizer)", finAtoms, finParams, false},
+	{"removeFinalizerGuard", "pkg/controller.v1beta1/trial/trial_controller_util.go", "needUpdateFinalizers", "stmt:finalizers := []string{}", finAtoms, finParams, false},
+	{"dbCleanupGuard", "pkg/controller.v1beta1/trial/trial_controller_util.go", "updateFinalizers", "r.DeleteTrialObservationLog(instance)", finAtoms, finParams, false},
+	{"finalizerWriteGuard", "pkg/controller.v1beta1/trial/trial_controller_util.go", "updateFinalizers", "r.Update(context.TODO(), instance)", finAtoms, finParams, false},
+	{"callUpdateFinalizersGuard", "pkg/controller.v1beta1/trial/trial_controller.go", "Reconcile", "r.updateFinalizers(instance, finalizers)", trAtoms, trParams, false},
+	{"markTrialCreatedGuard", "pkg/controller.v1beta1/trial/trial_controller.go", "Reconcile", "instance.MarkTrialStatusCreated(", trAtoms, trParams, false},
+	{"callReconcileTrialGuard", "pkg/controller.v1beta1/trial/trial_controller.go", "Reconcile", "r.reconcileTrial(instance)", trAtoms, trParams, false},
+	{"callDeleteDeploymentGuard", "pkg/controller.v1beta1/suggestion/suggestion_controller.go", "Reconcile", "r.deleteDeployment(", srAtoms, srParams, false},
+	{"callDeleteServiceGuard", "pkg/controller.v1beta1/suggestion/suggestion_controller.go", "Reconcile", "r.deleteService(", srAtoms, srParams, false},
+	{"markSugCreatedGuard", "pkg/controller.v1beta1/suggestion/suggestion_controller.go", "Reconcile", "instance.MarkSuggestionStatusCreated(", srAtoms, srParams, false},
+	{"callReconcileSuggestionGuard", "pkg/controller.v1beta1/suggestion/suggestion_controller.go", "Reconcile", "r.ReconcileSuggestion(instance)", srAtoms, srParams, false},
+	{"expAddFinalizerGuard", "pkg/controller.v1beta1/experiment/experiment_controller_util.go", "needUpdateFinalizers", "append(pendingFinalizers, updatePrometheusMetrics)", efinAtoms, efinParams, false},
+	{"expRemoveFinalizerGuard", "pkg/controller.v1beta1/experiment/experiment_controller_util.go", "needUpdateFinalizers", "stmt:finalizers := []string{}", efinAtoms, efinParams, false},
+	{"expCallUpdateFinalizersGuard", "pkg/controller.v1beta1/experiment/experiment_controller.go", "Reconcile", "r.updateFinalizers(instance, finalizers)", expAtoms, expParams, false},
+	{"listKilledGuard", "pkg/controller.v1beta1/experiment/util/status_util.go", "updateTrialsSummary", "stmt:sts.KilledTrialList = append(", clsAtoms, clsParams, true},
+	{"listFailedGuard", "pkg/controller.v1beta1/experiment/util/status_util.go", "updateTrialsSummary", "stmt:sts.FailedTrialList = append(", clsAtoms, clsParams, true},
+	{"listSucceededGuard", "pkg/controller.v1beta1/experiment/util/status_util.go", "updateTrialsSummary", "stmt:sts.SucceededTrialList = append(", clsAtoms, clsParams, true},
+	{"listEarlyStoppedGuard", "pkg/controller.v1beta1/experiment/util/status_util.go", "updateTrialsSummary", "stmt:sts.EarlyStoppedTrialList = append(", clsAtoms, clsParams, true},
+	{"listRunningGuard", "pkg/controller.v1beta1/experiment/util/status_util.go", "updateTrialsSummary", "stmt:sts.RunningTrialList = append(", clsAtoms, clsParams, true},
+	{"listMetricsUnavailableGuard", "pkg/controller.v1beta1/experiment/util/status_util.go", "updateTrialsSummary", "stmt:sts.MetricsUnavailableTrialList = append(", clsAtoms, clsParams, true},
+	{"listPendingGuard", "pkg/controller.v1beta1/experiment/util/status_util.go", "updateTrialsSummary", "stmt:sts.PendingTrialList = append(", clsAtoms, clsParams, true},
 	{"sugRestartGuard", "pkg/controller.v1beta1/experiment/experiment_controller_util.go", "restartSuggestion", "original.DeepCopy()",
 		map[string]string{"err != nil": "getFailed", "errors.IsNotFound(err)": "notFound", "original.IsCompleted()": "sugCompleted", "original.IsRestarting()": "sugRestarting", "original.IsSucceeded()": "sugSucceeded", "instance.IsRestarting()": "expRestarting"},
-		[]string{"getFailed", "notFound", "sugCompleted", "sugRestarting", "sugSucceeded", "expRestarting"}},
+		[]string{"getFailed", "notFound", "sugCompleted", "sugRestarting", "sugSucceeded", "expRestarting"}, false},
 }
 
 var expAtoms = map[string]string{
@@ -177,6 +186,13 @@ var efinAtoms = map[string]string{
 	"elem == updatePrometheusMetrics": "isKatibFinalizer", "pendingFinalizer != updatePrometheusMetrics": "(!isKatibFinalizer)",
 }
 var efinParams = []string{"deleting", "hasFinalizer", "isKatibFinalizer"}
+
+var clsAtoms = map[string]string{
+	"trial.IsKilled()": "killed", "trial.IsFailed()": "failed", "trial.IsSucceeded()": "succeeded", "trial.IsEarlyStopped()": "earlyStopped",
+	"trial.IsRunning()": "running", "trial.IsMetricsUnavailable()": "metricsUnavailable",
+	"instance.Spec.Objective.Goal != nil": "goalSet",
+}
+var clsParams = []string{"killed", "failed", "succeeded", "earlyStopped", "running", "metricsUnavailable", "goalSet"}
 
 var verdictAtoms = map[string]string{
 	"jobStatus.Condition == trialutil.JobSucceeded": "jobSucceeded", "jobStatus.Condition == trialutil.JobFailed": "jobFailed",
@@ -324,7 +340,27 @@ func (g *guardWalker) walk(stmts []ast.Stmt, pc string) string {
 			}
 		case *ast.BlockStmt:
 			factor = gAnd(factor, g.walk(x.List, cur))
-		case *ast.ForStmt, *ast.RangeStmt, *ast.SwitchStmt, *ast.TypeSwitchStmt, *ast.SelectStmt:
+		case *ast.RangeStmt:
+			if g.containsCall(x) {
+				if g.spec.enterLoops {
+					g.walk(x.Body.List, cur)
+				} else {
+					g.unsupported = append(g.unsupported, fmt.Sprintf("%T", x))
+				}
+			}
+		case *ast.ForStmt:
+			if g.containsCall(x) {
+				if g.spec.enterLoops {
+					g.walk(x.Body.List, cur)
+				} else {
+					g.unsupported = append(g.unsupported, fmt.Sprintf("%T", x))
+				}
+			}
+		case *ast.BranchStmt:
+			if g.spec.enterLoops && (x.Tok == token.CONTINUE || x.Tok == token.BREAK) {
+				return "false"
+			}
+		case *ast.SwitchStmt, *ast.TypeSwitchStmt, *ast.SelectStmt:
 			if g.containsCall(x) {
 				g.unsupported = append(g.unsupported, fmt.Sprintf("%T", x))
 			}
